@@ -99,13 +99,20 @@ def make_api_class(base, model, siteinfos, log, latency, limits):
     class SynthApi(base):
         def __init__(self, apiurl, *a, **kw):
             kw.pop("use_http2", None)
-            base.__init__(self, apiurl, *a, **kw)
-            self.api_request_limit = limits["request"]
-            self.api_result_limit = limits["result"]
-            self.rvlimit = limits["rv"]
+            base.__init__(self, apiurl, *a, **kw)  # limits come from mwlib.utils.conf, as in production
 
         def _fetch(self, url, method="GET", data=None, **kw):
-            n = latency.pop(0) if latency else 0
+            if method == "POST":
+                q0 = dict(parse.parse_qsl(data.decode("utf-8"), keep_blank_values=True))
+            else:
+                q0 = dict(parse.parse_qsl(parse.urlparse(url).query, keep_blank_values=True))
+            kind = q0.get("meta") or (q0.get("prop") or "").split("|")[0] or q0.get("action")
+            if q0.get("action") == "parse" and model.page(q0.get("page", "")) is None:
+                kind = "error"
+            # latency = yields of the event loop: a per-request script plus a per-kind base (so that e.g. every
+            # siteinfo answer is slower than every imageinfo answer, or error answers come last)
+            # (every request yields at least once: an answer is never available in the same scheduling quantum)
+            n = 1 + (latency.pop(0) if latency else 0) + limits.get("kind_latency", {}).get(kind, 0)
             for _ in range(n):
                 gevent.sleep(0)
             if method == "POST":
